@@ -42,6 +42,36 @@ const dsAllocLimit = 24 << 20 // bytes allocated by one handler call before the 
 type dsAddr string
 
 func (a dsAddr) Network() string { return "fake" }
+
+// dsAddrName is the inverse of dsRealAddr on rendered addresses (the op lines and the model speak in names).
+func dsAddrName(rendered string) string {
+	for _, n := range []string{"a1", "a2", "a3", "a5", "a6"} {
+		if dsRealAddr(n).String() == rendered {
+			return n
+		}
+	}
+	return rendered
+}
+
+// dsRealAddr maps the address names of the op lines to the address types a real DNS server sees.  Distinct names
+// are distinct peers: a1 and a2 share the IP and differ only in the UDP port (two clients behind one NAT or
+// resolver host), a3 is another host, a5 an IPv6 link-local peer that differs
+// from a6 only in the zone; anything else stays an opaque fake address.
+func dsRealAddr(name string) net.Addr {
+	switch name {
+	case "a1":
+		return &net.UDPAddr{IP: net.IPv4(198, 51, 100, 7), Port: 40000}
+	case "a2":
+		return &net.UDPAddr{IP: net.IPv4(198, 51, 100, 7), Port: 40001}
+	case "a3":
+		return &net.UDPAddr{IP: net.IPv4(198, 51, 100, 8), Port: 40000}
+	case "a5":
+		return &net.UDPAddr{IP: net.ParseIP("fe80::1"), Port: 40000, Zone: "eth0"}
+	case "a6":
+		return &net.UDPAddr{IP: net.ParseIP("fe80::1"), Port: 40000, Zone: "eth1"}
+	}
+	return dsAddr(name)
+}
 func (a dsAddr) String() string  { return string(a) }
 
 // dsComm is an in-memory ServerCommunicator: it only records the handler the listener registers.
@@ -126,7 +156,7 @@ func dsDescribe(s *sadns.VerifSess, withTime bool) string {
 	if len(chunks) > 0 {
 		cs = strings.Join(chunks, ".")
 	}
-	r := fmt.Sprintf("%d,%s,%s,%c%c,%d,%s%s,in:%d/%s/%s/%s,out:%d/%s/%s/%s", s.UserId, s.Owner, b01(s.Closed), s.Up, s.Down,
+	r := fmt.Sprintf("%d,%s,%s,%c%c,%d,%s%s,in:%d/%s/%s/%s,out:%d/%s/%s/%s", s.UserId, dsAddrName(s.Owner), b01(s.Closed), s.Up, s.Down,
 		s.Frag, b01(s.Lazy), b01(s.Multi), inNext, hexs(inBuf), u16s(inFut), u16s(inAck), outNext, cs, u16s(outAck), b01(has))
 	if withTime {
 		r += "@" + strconv.FormatInt(s.Last.UnixNano(), 10)
@@ -394,7 +424,7 @@ func dsRun(line string) (result, monitor string, nMsgs int, classes []string) {
 			liveBefore := map[int]bool{}
 			for sid, o := range w.objs {
 				d := sadns.VerifDescribeConn(o)
-				ownerBefore[sid] = d.Owner
+				ownerBefore[sid] = dsAddrName(d.Owner)
 				liveBefore[sid] = strings.HasPrefix(before[sid], "L")
 			}
 			q := &dns.Msg{}
@@ -415,7 +445,7 @@ func dsRun(line string) (result, monitor string, nMsgs int, classes []string) {
 						}
 					}
 				}()
-				resp, herr = w.comm.handler(q, dsAddr(f[1]))
+				resp, herr = w.comm.handler(q, dsRealAddr(f[1]))
 			}()
 			alloc1 := dsAllocated()
 			if panicked != "" {
@@ -888,7 +918,7 @@ func (b *dsBuilder) write(sid int, data []byte) {
 func bp(v bool) *bool       { return &v }
 func u32p(v uint32) *uint32 { return &v }
 
-var dsAddrs = []string{"a1", "a2", "a3"}
+var dsAddrs = []string{"a1", "a2", "a3", "a5", "a6"}
 
 // one random history over up to dsSlotsShown sessions
 func dsHistory(r *Rand, dom string, nOps int) string {
